@@ -786,7 +786,7 @@ func gen(r *rand.Rand, i int) desc {
 	// at most G-1 long-lived children unless the fault comes while the initial fleet is still being
 	// started: otherwise no child ever exits and prefork (correctly) keeps running
 	maxLong := d.G - 1
-	if faultAt >= 0 && faultAt <= d.G {
+	if faultAt >= 0 && (faultAt < d.G || (ending != 1 && faultAt == d.G)) {
 		maxLong = d.G
 	}
 	nLong := 0
